@@ -318,6 +318,12 @@ func bfsCalls(plain []string) []call {
 	}
 	out = append(out, call{API: "Pin", Cid: "m", Opts: optset{devs["name"][0]}})
 	out = append(out, call{API: "Pin", Cid: "m", Opts: optset{upd("a")}})
+	// the update option naming the pinned CID itself (legal: an ordinary pin)
+	for _, t := range plain {
+		out = append(out, call{API: "Pin", Cid: t, Opts: optset{upd(t)}})
+		out = append(out, call{API: "Pin", Cid: t, Opts: optset{upd(t), devs["meta"][1]}})
+		out = append(out, call{API: "Pin", Cid: t, Opts: optset{upd(t), rf(2, 1)}})
+	}
 	// PinPath over the path alphabet with a few option sets
 	pathOpts := []optset{{}, {devs["name"][1]}, {devs["mode"][0]}, {devs["meta"][4]}, {devs["expiry"][2]}, {rf(2, 1)}}
 	for _, p := range []string{"/ipfs/a", "/ipfs/a/sub"} {
